@@ -12,6 +12,7 @@ import (
 	"time"
 
 	"github.com/bokysan/socketace/v2/internal/socketace"
+	"github.com/bokysan/socketace/v2/internal/util/cert"
 	"github.com/xtaci/kcp-go/v5"
 )
 
@@ -185,7 +186,7 @@ func stallPeer(kind, point, addr string, first []byte) (func(), error) {
 			}
 			cc = t
 		}
-		if _, err := socketace.NewClientConnection(cc, nil, kind == "tcptls", "localhost"); err != nil {
+		if _, err := socketace.NewClientConnection(cc, &cert.ClientConfig{InsecureSkipVerify: true}, kind == "tcptls", "localhost"); err != nil {
 			return closeFn, err
 		}
 	}
